@@ -11,7 +11,8 @@ CHECKS = {
                   "quantize_activation / SymmetricQuantizer calls over the complete float16/bfloat16 value space",
         level="exploration", ref="4/C01",
         text="Every finite float16 and bfloat16 value (complete enumeration) and boundary-directed/random float32 values "
-             "are pushed through the real quantizers for sampled scales/axes/layouts; an independent float64 oracle "
+             "are pushed through the real quantizers for sampled scales/axes/layouts (contiguous, transposed, sliced, stride-0 "
+             "expanded and overlapping sliding-window views); an independent float64 oracle "
              "judges code membership, dequantize = scale*code, per-element optimality and idempotence. Held means: no "
              "violation on the observed executions; scales and shapes are sampled, values are exhaustive for 16-bit dtypes.",
         note="Trusted: torch widening casts and float64 arithmetic; tolerance = 4 x (ulp(x)+ulp(dq)+s*ulp(x/s)) derived "
@@ -22,7 +23,8 @@ CHECKS = {
         level="exploration", ref="4/C02",
         text="Tensors assembled group by group from degenerate value classes are quantized with the real "
              "quantize_weight; the oracle recomputes group hulls with its own membership model and bounds each "
-             "element's error by half the nominal step plus float rounding; idempotence is judged through dequantize().",
+             "element's error by half the nominal step plus float rounding; idempotence is judged through dequantize(). "
+             "Sources are contiguous or transposed / sliced / expanded / sliding-window views, up to 1030 rows or columns.",
         note="Trusted: float64 arithmetic, independent group model (row-major runs). 1-D tensors without group size: "
              "grouping read from the number of scales."),
     "C03": dict(
@@ -141,7 +143,7 @@ CHECKS = {
              "must equal external/awq pack_intweight bit for bit; float16 group-128 int4 weights must dequantize alike in "
              "both representations and convert back (qbits_tensor / save_to_state_dict) to identical codes, scales and "
              "zero-points. Code matrices are contiguous, transposed-storage, windowed or strided views and are held "
-             "in five integer dtypes.",
+             "in five integer dtypes; wrappers rebuilt by detach() and nn.Parameter() must unpack to the same values.",
         note="Assumes reshape/permute/shift/or behave the same on CPU and CUDA. The selection of the AWQ class and the "
              "device-move glue need a CUDA device and are not executed; CUDA gemm kernels are out of reach."),
     "C12": dict(
@@ -171,7 +173,7 @@ CHECKS = {
              "whose forward applies functional and in-place tensor code (26 operations) to the quantized activations "
              "handed out by quantized modules, and for quantized model inputs; global torch state (grad mode, default "
              "dtype, mode stacks, RNG) is snapshotted around inference and library calls; library calls must not modify "
-             "the float tensors they read.",
+             "the float tensors they read. A third of the histories use debug=True contexts (stdout captured).",
         note="Fault points are function entries (PY_START), so faults between two statements of one function are not "
              "enumerated. Fault enumeration is complete for the (function, k) pairs of the listed functions in quick tier "
              "for k in {1, 2, last} and for k <= 6 and last in thorough tier."),
